@@ -558,6 +558,54 @@ def check_sched(ctx, c, n):
     return fails
 
 
+# ---- the real-time clocks as users: library-defined item identity (Function wrappers, Routines) ---------------
+def gen_rt_batch(rng, clock):
+    items, slot = [], {}
+    n = rng.randint(4, 9)
+    for i in range(n):
+        kind = rng.choice(['plain', 'plain', 'plain', 'wrap', 'rout'])
+        obj = rng.randrange(2)
+        if kind == 'plain':                      # the same python function again: later slot, a NEW queue item
+            k = slot.get(obj, 0) + rng.randint(1, 3)
+            slot[obj] = k
+        else:
+            k = rng.randint(1, 8)
+        items.append(['%s%d.%d' % (kind[0], obj, i), kind, obj, k])
+    q = oracle.SortedListQueue()
+    label = {}
+    for i, (lab, kind, obj, k) in enumerate(items):
+        key = ('p', i) if kind == 'plain' else (kind, obj)     # distinct wrappers are distinct items; same object = re-add
+        q.add(Fraction(k), key); label[key] = lab
+    exp = [label[t] for _, t in q]
+    return {'clock': clock, 'tempo': rng.choice(['1', '2']), 'items': items, 'expect': len(exp)}, exp
+
+
+def check_rt(ctx, c, n):
+    pairs = [gen_rt_batch(ctx.rng, 'system' if i % 2 == 0 else 'tempo') for i in range(n)]
+    # the minimal shape first: one function scheduled twice with another task in between
+    fixed = {'clock': 'system', 'tempo': '1', 'expect': 3, 'items': [['tick1', 'plain', 0, 1], ['other', 'plain', 1, 2], ['tick2', 'plain', 0, 3]]}
+    pairs = [(fixed, ['tick1', 'other', 'tick2']), (dict(fixed, clock='tempo', tempo='2'), ['tick1', 'other', 'tick2'])] + pairs
+    try:
+        res = ctx.impl('c09_rt', {'batches': [b for b, _ in pairs]}, mode='rt', timeout=900)['out']
+    except fw.ImplError as e:
+        c.notes.append('real-time clock batches not run (runner failed): %s' % str(e)[-300:])
+        return []
+    out = []
+    for (b, exp), r in zip(pairs, res):
+        c.count('user:rt-' + b['clock']); c.evaluations += 1
+        if r.get('log') == exp:
+            c.nontriv(('rt', json.dumps(b, sort_keys=True)))
+            continue
+        if len(out) < 2:
+            out.append(Failure('search', 'real-time %s clock: wake-ups %s, expected %s (each sched of a plain function is a new queue '
+                               'item; the same Function / Routine object again replaces its pending wake-up) for batch %s%s'
+                               % (b['clock'], r.get('log', r), exp, json.dumps(b['items']),
+                                  '' if r.get('complete', True) else ' -- wake-ups are MISSING after 12 s'),
+                               signature='C09:user-rt:at-most-once', replay={'rt_batches': [b], 'observed': r, 'expected': exp},
+                               found_input=True, theorem='remove_frames_others'))
+    return out
+
+
 # ---- correspondence --------------------------------------------------------------------------
 def correspond(ctx):
     c = Corr()
@@ -614,6 +662,7 @@ def correspond(ctx):
     indirect(ctx, c)
     c.failures.extend(check_users(ctx, c, ctx.n(150, 1500)))
     c.failures.extend(check_sched(ctx, c, ctx.n(120, 1500)))
+    c.failures.extend(check_rt(ctx, c, ctx.n(2, 8)))
     c.notes.append('indirect users II: clock tasks in an NRT process (SystemClock / TempoClocks, re-scheduling while pending, tempo and '
                    'beats changes -> ClockScheduler.retime, main.reset() after aborted histories, empty()-driven run loop), OscScore '
                    'filled from inside routines (latencies None / negative / 0 / positive; list view against raw timetags) and Ppar '
